@@ -393,6 +393,12 @@ Fixpoint graph_outputs (h : heap) (tbl : table) (outs : list vinfo) : res (heap 
     end
   end.
 
+(* names of the attributes of a list (a repeated attribute name: only the LAST attribute is deserialized) *)
+Definition aproto_name (a : aproto) : N :=
+  match a with APlain k _ _ _ => k | AGraph k _ => k | AGraphs k _ => k end.
+Fixpoint aproto_names (al : aprotos) : list N :=
+  match al with ANil => [] | ACons a r => aproto_name a :: aproto_names r end.
+
 (* The recursion is structural on the proto: this is the termination argument of C17.
    `sc` = enclosing scopes (innermost first), `cur` = table of the scope being built. *)
 Fixpoint deser_graph (gp : gproto) (sc : list table) (h : heap) {struct gp} : res (heap * nat) :=
@@ -464,6 +470,8 @@ with deser_attrs (al : aprotos) (scs : list table) (h : heap) {struct al} : res 
   match al with
   | ANil => Ok (h, [])
   | ACons a r =>
+    if existsb (N.eqb (aproto_name a)) (aproto_names r) then deser_attrs r scs h   (* a later attribute repeats the name *)
+    else
     match deser_attr a scs h with
     | Raise e => Raise e
     | Ok (h1, x) =>
